@@ -7,6 +7,11 @@ import (
 	"verif.local/vsync/kern"
 )
 
-func isAbort(r any) bool           { return kern.IsAbort(r) }
-func runtimeStack(b []byte) int    { return runtime.Stack(b, false) }
-func sortStrings(s []string)       { sort.Strings(s) }
+//go:norace
+func isAbort(r any) bool { return kern.IsAbort(r) }
+
+//go:norace
+func runtimeStack(b []byte) int { return runtime.Stack(b, false) }
+
+//go:norace
+func sortStrings(s []string) { sort.Strings(s) }
